@@ -61,7 +61,7 @@ ASSUMPTIONS = [
 BOUND = {
     "quick": "rows 1..3; quick alphabets (f8 4, i8 4, str 3 + 29 special strings (incl. text that looks like a missing marker, a number, a boolean, a date) in frames of <= 2 rows, D 3, us 3, ...); "
              "all column pairs of 2-row representatives; 5 formats x 4 suffixes x (csv: 4 sep x 2 header x 3 encodings; json: 3 encodings); "
-             "ListOfDicts lists of 1..2 items (csv 1..3) x pickle/json/csv x the same configurations",
+             "JSON also with a string ending in U+0000 (columns of <= 2 rows); ListOfDicts lists of 1..2 items (csv 1..3) x pickle/json/csv x the same configurations",
     "thorough": "rows 1..3; thorough alphabets (f8 9, i8 6, str 5 + 46 special strings in frames of <= 3 rows, D 6, us 4/5, ...); "
                 "same configurations; ListOfDicts lists of 1..3 items",
 }
@@ -233,6 +233,12 @@ def wide_frames(fmt, tier):
 def frames(fmt, tier, n):
     yield from single_columns(fmt, tier, n)
     yield from special_columns(tier, n)
+    if fmt == "json" and n <= 2:
+        # a string ending in U+0000 is representable in JSON ("ab\\u0000"); NumPy's fixed-width strings drop trailing
+        # NULs, so a reader that goes through them shortens the value (seeded C12-r12-1, C18-r12-1)
+        for toks in itertools.product([None, "a", "ab\x00"], repeat=n):
+            if "ab\x00" in toks:
+                yield [[POS_NAMES[0], "str", list(toks)]]
     if n == 2:
         yield from pair_frames(fmt, tier)
         yield from name_frames(fmt)
